@@ -37,7 +37,9 @@ def real_thread_run(cfg, tier, seed, results, broken, log):
     import framework as fw
     ok, out = fw.build_harness("release", hooks=False, config="nohook")
     if not ok:
-        log("real-thread run skipped: guard-off harness build failed (supporting exploration only)")
+        # the crate (and the harness) must build with the guard off: not building is a broken obligation
+        log("guard-off harness build failed")
+        broken.append(dict(kind="build", what="harness build with the verification guard OFF against /repo failed (real-thread run)", log=out[-2500:]))
         return
     d = os.path.join(fw.BUILD, "run", "mt-real")
     fw.sh(f"rm -rf {d}; mkdir -p {d}")
